@@ -200,6 +200,22 @@ func extractC04KeysAndJti(l *lean, akF, mw *ast.File) {
 	}
 	_ = rsaReturns
 	l.def("rsaStrengthCase", "String", fmt.Sprintf("%q", rsaTest), rsaTest)
+	// the quantity the RSA case compares with minimumRSAKeySize: selects the model's measure (NutsModel/C04/SshKey.lean);
+	// anything else than N.BitLen() / Size()*8 does not elaborate
+	rsaMeasure := "unknown_rsa_measure"
+	if m := regexp.MustCompile(`^if (?:(\w+) := ([^;]+); )?(.+?) >= minimumRSAKeySize \{`).FindStringSubmatch(rsaTest); m != nil {
+		expr := m[3]
+		if m[1] != "" && m[3] == m[1] {
+			expr = m[2]
+		}
+		switch strings.ReplaceAll(expr, " ", "") {
+		case "rawKey.N.BitLen()":
+			rsaMeasure = ".bitLen"
+		case "rawKey.Size()*8", "8*rawKey.Size()":
+			rsaMeasure = ".sizeTimes8"
+		}
+	}
+	l.def("rsaMeasure", "RsaMeasure", rsaMeasure, rsaMeasure)
 
 	var jtiStmts []string
 	if fd := funcDecl(mw, "bestPracticesCheck"); fd != nil {
